@@ -1,4 +1,5 @@
 """C03 -- minimisation preserves the language and yields the trim minimal automaton (structural clauses)."""
+import re
 from vlib import ast as A, prov as P
 from vlib import rules_pipeline as RPL
 
@@ -173,11 +174,16 @@ def structure_rules(repo, res):
             loops = [g for g in A.guards_of(s, pm2) if g[0]["k"] == "ForLoop"]
             inner = A.resolve(loops[0][0]["iter"], e2.get(id(loops[0][0]))) if loops else ("none",)
             outer = A.resolve(loops[1][0]["iter"], e2.get(id(loops[1][0]))) if len(loops) > 1 else ("none",)
-            pg = [x for x in A.preceding_guards(s, pm2) if x[0] == "if" and A.before(loops[0][0], x[2])] if loops else []
-            g_ok = len(pg) == 1 and "contains" in repo.text(f2.file, pg[0][1]) and not repo.text(f2.file, pg[0][1]).strip().startswith("!")
+            # what is known to hold where the dead transition is pushed, however the test is spelled (`if present { continue }`,
+            # `.filter(|i| !present)`, a local naming the filtered iterator): exactly one negative membership test
+            from vlib import preds as PR
+            kn = PR.known(repo, f2, s, e2, pm2)
+            neg_member = [k for k in kn if re.match(r"^!.*\.contains(_key)?\(", k)]
+            g_ok = len(neg_member) == 1 and len(kn) == 1
             fr = A.resolve(P.ctor_field(s, "from"), e2.get(id(s)))
             ii = A.resolve(P.ctor_field(s, "input"), e2.get(id(s)))
-            ok = inner[0] == "mcall" and inner[1] == "ids" and "inputs" in A.show(inner) and "transitions" in A.show(outer) and g_ok and fr[0] == "proj" and ii[0] == "elem"
+            isp = P.spine(ii)
+            ok = ".ids" in isp and "field:inputs" in isp and "transitions" in A.show(outer) and g_ok and fr[0] == "proj" and ii[0] == "elem"
             why = f"for every state row and every symbol of self.inputs.ids() that has no transition: push (state, symbol) -> DEAD_STATE_ID (loop={A.show(inner)[:40]}, skip-if-present={g_ok})"
         res.check(ok, "DEAD", "DEAD:make_transitions_image:completion", why, f2.loc())
         srt = [c for c in P.find_calls(f2.body, methods={"sort_unstable_by_key", "sort_by_key"})]
